@@ -711,10 +711,12 @@ class Fn:
 
     def call_args(self, fi, args):
         out = []
-        if getattr(fi, 'outp', None):
+        if getattr(fi, 'outp', None) and not self.ctx.cfg.get('out_param_calls'):
             raise TranslationError('call to %s which has out-parameters (not supported at call sites)' % fi.name)
         pnodes = [p for p in fi.d.get('inner', []) if p['kind'] == 'ParmVarDecl']
         for p, a in zip(pnodes, args):
+            if p.get('name') in getattr(fi, 'outp', []) and p.get('name') not in self.ctx.cfg.get('inout_params', {}).get(fi.name, []):
+                continue   # C09 ("out_param_calls": true): a pure out-parameter is not an input; bind_call binds it from the callee's result tuple
             if p.get('name') is not None and fi.functors.get(p.get('name')) == 'fails':   # C04: a forwarded functor that may throw:
                 cn = p['name'] + '_fails'                                                  # the caller's own <name>_fails flag is passed on
                 if cn not in self.env: raise TranslationError('call to %s: caller has no %s' % (fi.name, cn))
@@ -1591,6 +1593,15 @@ class Fn:
                 init_ = [x for x in v.get('inner', []) if isinstance(x, dict) and x.get('kind') not in ('TypedefType',)]
                 if len(init_) != 1:
                     raise TranslationError('struct local %s needs exactly one initialiser' % nm)
+                if skip_wrappers(init_[0]).get('kind') == 'CXXConstructExpr' and not skip_wrappers(init_[0]).get('inner'):
+                    # C09: `BufferBytes bytes;` (default construction, members assigned afterwards): the flattened members start as 0
+                    if not hasattr(self, 'struct_locals'): self.struct_locals = {}
+                    self.struct_locals[nm] = st_
+                    out_ = ''
+                    for i_, f_ in enumerate(sl_[st_]['fields']):
+                        self.env[nm + '_' + f_] = ('s', int(sl_[st_]['bits'][i_])) if sl_[st_].get('bits') else ('s', 64)
+                        out_ += f'let {nm}_{f_} := (0) in\n'
+                    return out_ + go(i + 1)
                 iv_ = self.e(init_[0])
                 if not hasattr(self, 'struct_locals'): self.struct_locals = {}
                 self.struct_locals[nm] = st_
@@ -1767,6 +1778,16 @@ class Fn:
             resname = self.fresh('c'); k0_ = k                                                              # may throw: its completed flag is tested
             k = lambda: (lambda fe_: f'if {resname} then (\n{k0_()}) else {fe_}')(self.fail_exit())   # the failure exit of THIS point (a try block may end in k0_)
         res = resname if resname else '_'
+        if getattr(fi, 'outp', None) and self.ctx.cfg.get('out_param_calls'):   # C09: `r = F(a, out)`: the callee returns (r, out..): bind the caller's
+            pn_ = [p for p in fi.d.get('inner', []) if p['kind'] == 'ParmVarDecl']      # argument variables (locals in scope) to the out components
+            outs_ = []
+            for on_ in fi.outp:
+                ix_ = [i for i, p in enumerate(pn_) if p.get('name') == on_]
+                if not ix_: raise TranslationError('out_param_calls: %s has no parameter %s' % (fi.name, on_))
+                an_ = self.lhs_name(n['inner'][1:][ix_[0]])
+                if an_ not in self.env: raise TranslationError('out_param_calls: out argument %s is not a local in scope' % an_)
+                self.note_write(an_); outs_.append(an_)
+            res = ('(' + ', '.join([res] + outs_) + ')') if fi.ret_ct[0] != 'void' else self.tup(outs_)
         pat = "'(" + ', '.join([res] + wf) + ')' if wf else res
         return (f'match {fi.out} ' + ' '.join(args) + f' with\n| Ok {pat.lstrip(chr(39)) if not wf else pat[1:]} =>\n{k()}\n'
                 f'| Stuck => Stuck | Fuel => Fuel | Exn => Exn\nend')
